@@ -2,6 +2,7 @@
 from .engine_common import EngineCheck
 
 E = "LLBuild.Engine."
+H = "LLBuild.Handshake."
 
 
 class Check(EngineCheck):
@@ -9,12 +10,14 @@ class Check(EngineCheck):
     module = "LLBuild.Props.C06"
     theorems = [E + "C06_start", E + "C06_prior", E + "C06_provide", E + "C06_inputs_available",
                 E + "C06_inputs_complete_and_clean", E + "C06_schedule_independent_value",
-                E + "engine_fingerprint_matches_model"]
+                E + "engine_fingerprint_matches_model",
+                H + "C06_handshake_shape_matches_code", H + "C06_no_lost_wakeup", H + "C06_mutual_exclusion",
+                H + "C06_handoff_counts", H + "C06_no_deadlock", H + "C06_lost_wakeup_without_recheck"]
     mix = [(0.5, {}), (0.5, {"threads": True})]
     budget = (300, 3000)
     cross_schedule = True
     assumptions = EngineCheck.assumptions + [
-        "data races, lost wake-ups and deadlock are not expressible in the model: the lock/check/wait and lock/push/notify shapes are asserted by the fingerprint extractor, the free-threaded harness runs exercise them; no memory-model proof",
+        "lost wake-ups, deadlock and exactly-once hand-off are proved at LOCK GRANULARITY on a model of the two critical sections (Model/Handshake.lean) whose shape parameters are read from the source by the fingerprint extractor; data races below lock granularity (C++ memory model) are not expressible; the free-threaded harness runs exercise the real code",
         "equality of the executed set across schedules is decided by the python oracle (same history, two schedules), not by a theorem"]
 
 
